@@ -15,6 +15,7 @@ import (
 	"github.com/traefik/yaegi/interp"
 
 	"verif/sim/host"
+	"verif/sim/wl/bincalls"
 	"verif/sim/wl/closures"
 	"verif/sim/wl/fanout"
 	"verif/sim/wl/hostcall"
@@ -53,16 +54,17 @@ var templates = []Template{
 	{"methods", methods.Src, methods.Run, []int{2, 3}},
 	{"tree", tree.Src, tree.Run, []int{1, 2}},
 	{"rwmap", rwmap.Src, rwmap.Run, []int{2, 3}},
+	{"bincalls", bincalls.Src, bincalls.Run, []int{2, 2}},
 }
 
 var (
 	nativeMu    sync.Mutex
-	nativeCache = map[string]map[int][]int{}
+	nativeCache = map[string]map[int][]string{}
 )
 
 // nativeOutput runs the natively compiled template (free, in its own bubble for
 // the fake clock) and returns the emitted values per tag.
-func nativeOutput(t *testing.T, tpl *Template, params []int) map[int][]int {
+func nativeOutput(t *testing.T, tpl *Template, params []int) map[int][]string {
 	key := fmt.Sprint(tpl.Name, params)
 	nativeMu.Lock()
 	if v, ok := nativeCache[key]; ok {
@@ -93,17 +95,20 @@ func nativeOutput(t *testing.T, tpl *Template, params []int) map[int][]int {
 	return out
 }
 
-func byTag(evs []host.Event) map[int][]int {
-	out := map[int][]int{}
+func byTag(evs []host.Event) map[int][]string {
+	out := map[int][]string{}
 	for _, e := range evs {
-		if e.Kind == host.KEmit {
-			out[e.Tag] = append(out[e.Tag], e.Val)
+		switch e.Kind {
+		case host.KEmit:
+			out[e.Tag] = append(out[e.Tag], fmt.Sprint(e.Val))
+		case host.KStr:
+			out[e.Tag] = append(out[e.Tag], e.Str)
 		}
 	}
 	return out
 }
 
-func sameOutput(a, b map[int][]int) (bool, string) {
+func sameOutput(a, b map[int][]string) (bool, string) {
 	keys := map[int]bool{}
 	for k := range a {
 		keys[k] = true
